@@ -13,7 +13,7 @@ from . import unitmodel as um
 
 HYDRO_EXTRA = ["thermal_pressure", "pressure", "temperature", "internal_energy", "radiative_energy_1",
                "radiative_energy_2", "radiative_energy_10", "radiative_energy_123", "scalar_01", "scalar_02",
-               "metallicity", "passive_7"]
+               "metallicity", "passive_7", "energy", "radiative_energy"]
 
 
 @st.composite
@@ -24,9 +24,13 @@ def hydro_var_lists(draw, ndim):
     names += [f"velocity_{c}" for c in comps]
     if draw(st.booleans()):
         side = draw(st.sampled_from(["both", "both", "left"]))
-        names += [f"B_{c}_left" for c in "xyz"]
+        # both spellings RAMSES descriptors use for the face-centred field: B_x_left and B_left_x
+        infix = draw(st.integers(0, 2)) > 0
+        names += [(f"B_{c}_left" if infix else f"B_left_{c}") for c in "xyz"]
         if side == "both":
-            names += [f"B_{c}_right" for c in "xyz"]
+            names += [(f"B_{c}_right" if infix else f"B_right_{c}") for c in "xyz"]
+    if draw(st.integers(0, 4)) == 0:
+        names += [f"momentum_{c}" for c in comps or "x"]
     extra = draw(st.lists(st.sampled_from(HYDRO_EXTRA), max_size=4, unique=True))
     names += extra
     if draw(st.booleans()):
@@ -248,8 +252,11 @@ def compare_mesh(osyris, mesh, m, r, exp=None, tag="mesh", rtol=1e-12, check_der
     got_keys = set(mesh.keys())
     if nrows == 0:
         return None
-    if got_keys != want_keys:
-        r.bad([tag, "keys"], f"mesh keys {sorted(got_keys)} expected {sorted(want_keys)} (ndim={ndim}, vars={m.mesh_vars})")
+    merged_comps = {c for comps in vectors.values() for c in comps}
+    if not want_keys <= got_keys or (got_keys & merged_comps):
+        # (further members, e.g. other derived variables, are not excluded by the property)
+        r.bad([tag, "keys"], f"mesh keys {sorted(got_keys)}: missing {sorted(want_keys - got_keys)}, components left next to "
+              f"their vector {sorted(got_keys & merged_comps)} (ndim={ndim}, vars={m.mesh_vars})")
         return None
     # ---- positions -> lattice ids
     scale = m.boxlen * m.ul
@@ -292,6 +299,9 @@ def compare_mesh(osyris, mesh, m, r, exp=None, tag="mesh", rtol=1e-12, check_der
         if not dims_close(u[1], dims):
             r.bad([tag, "unit", name], f"{name}: unit [{got_arr.unit}] dims {[float(x) for x in u[1]]} expected {dims}")
             return False
+        if len(g) != nrows:
+            r.bad([tag, "column-length", name], f"{name}: {len(g)} values for {nrows} rows")
+            return False
         g = g[gs]
         w = np.asarray(want, dtype=np.float64)[ws]
         with np.errstate(all="ignore"):
@@ -333,17 +343,20 @@ def compare_mesh(osyris, mesh, m, r, exp=None, tag="mesh", rtol=1e-12, check_der
             if not dims_close(u[1], (0, 1, 0, 0)):
                 r.bad([tag, "unit", "mass"], f"mass unit {mesh['mass'].unit}")
                 return None
-            if abs(u[0] / 1.9889e33 - 1) > 1e-9:
-                r.bad([tag, "unit", "mass-not-M_sun"], f"{mesh['mass'].unit}")
-                return None
             if not np.all(np.abs(g[gs] - want[ws]) <= 1e-9 * np.abs(want[ws])):
                 r.bad([tag, "derived", "mass"], "cell mass != density * dx^3")
                 return None
         if "B_field" in want_keys:
             bf = mesh["B_field"]
+            if not isinstance(bf, osyris.Vector) or bf.nvec != ndim:
+                r.bad([tag, "derived", "B_field-not-a-vector"], repr(bf))
+                return None
             for c, lname, rname in zip("xyz", vectors["B_left"], vectors["B_right"]):
                 want = 0.5 * (exp[lname] + exp[rname])
                 g, u = phys(getattr(bf, c))
+                if not dims_close(u[1], (-0.5, 0.5, -1, 0)) or len(g) != nrows:
+                    r.bad([tag, "derived", "B_field-unit-or-length"], f"B_field.{c}: unit [{getattr(bf, c).unit}], {len(g)} rows")
+                    return None
                 scale_b = np.abs(exp[lname]) + np.abs(exp[rname])
                 if not np.all(np.abs(g[gs] - want[ws]) <= 1e-12 * scale_b[ws]):
                     r.bad([tag, "derived", "B_field"], f"B_field.{c} != (B_left+B_right)/2")
